@@ -372,6 +372,26 @@ def run(ctx):
                 check(ctx, base_text, u, bv, name, args, spec, bshape)
             if i % 997 == 0:
                 ctx.sample({"base": base_text, "m": "with_user", "args": ["p@ss:w/rd?#"]})
+    # SELF-REFERENTIAL receivers: the text of one component occurs inside another one (the host as user name or inside the password -
+    # e-mail style logins -, host and port digits inside path, query and fragment, the user name inside the path): a modifier that
+    # edits the stored authority or the rendered text by search-and-replace, instead of rebuilding it from the parsed parts, hits the wrong place
+    SELFREF = [("{H}@", "/", "", ""), ("admin:{H}@", "/a/b", "?q=1", "#f"), ("joe%40{H}:secret@", "/pub", "?x=1", "#top"), ("u:p@", "/{H}/{P}", "?h={H}&p={P}", "#{H}:{P}"),
+               ("{P}:{P}@", "/{P}", "?{P}", "#{P}"), ("u@", "/u/p", "?u=u", "#u"), ("{S}:{S}@", "/{S}", "?{S}={S}", "#{S}")]
+    for (hk, h), sch, (k_, (ui, path, q, f)) in itertools.product(HOSTS, SCHEMES, enumerate(SELFREF)):
+        for port in ("", ":0", ":" + str(DEFAULT.get(sch, 80)), ":8080"):
+            i += 1
+            if not ctx.mine(i):
+                continue
+            sub = lambda t: t.replace("{H}", h.strip("[]")).replace("{P}", port[1:] or "80").replace("{S}", sch or "http")
+            base_text = (sch + ":" if sch else "") + "//" + sub(ui) + h + port + sub(path) + sub(q) + sub(f)
+            u = guarded(URL, base_text)
+            if is_exc(u):
+                ctx.count("base_rejected")
+                continue
+            bv = vec(u)
+            for name, args, spec in calls(ctx.rng, tg, 1) + current_calls(u):
+                check(ctx, base_text, u, bv, name, args, spec, ("selfref", hk, k_, "p" + port[:2], sch))
+            ctx.count("selfref_receivers")
     ctx.notes["bases"] = i
     # non-canonical raw components kept verbatim by encoded=True (lower-case hex, characters a quoter would escape,
     # invalid UTF-8): a modifier must still carry every component it does not target over byte for byte
